@@ -511,6 +511,8 @@ def storage_kwargs(scfg):
     kw = {}
     if kind in ("uniform", "geometric", "interval"):
         kw["size"] = scfg.get("size", 3)
+        if scfg.get("size_type"):
+            kw["size"] = getattr(np, scfg["size_type"])(kw["size"])
     if "targets" in scfg:
         kw["store_targets"] = scfg["targets"]
     if kind == "geometric" and scfg.get("p") is not None:
@@ -646,6 +648,8 @@ def build_explainer(world, ecfg):
         kw["imputer"] = world.imputers[ecfg["imputer"]]
     if "n_inner" in ecfg:
         kw["n_inner_samples"] = ecfg["n_inner"]
+        if ecfg.get("n_inner_type"):
+            kw["n_inner_samples"] = getattr(np, ecfg["n_inner_type"])(ecfg["n_inner"])
     if ecfg["cls"] in ("pfi", "sage"):
         if "dynamic" in ecfg:
             kw["dynamic_setting"] = ecfg["dynamic"]
